@@ -665,9 +665,73 @@ func genC13Repeat(r *Rand) *h.Scenario {
 	return sc
 }
 
+// genC13Tail: the last text a program writes does not end its line ("status: all done" through
+// fmt.Fprint, the last chunk of an io.Copy): the bytes are emitted all the same.
+func genC13Tail(r *Rand) *h.Scenario {
+	sc := &h.Scenario{Prop: "C13"}
+	c := &sc.Cont
+	c.Refresh = r.Weighted(6, 4, 0)
+	if c.Refresh == h.RefAuto {
+		c.RateNS = refreshRates[r.Intn(4)]
+	}
+	c.QueueLen = -1
+	if r.Bool(0.4) {
+		c.Terminal, c.TermW, c.TermH = true, 120, r.Range(8, 30)
+	} else {
+		c.Width = 120
+	}
+	nb := r.Range(0, 2)
+	for b := 0; b < nb; b++ {
+		sc.Bars = append(sc.Bars, h.BarSpec{Total: int64(r.Range(2, 9)), QueueAfter: -1, Filler: r.Weighted(2, 0, 0, 2)})
+		sc.Initial = append(sc.Initial, b)
+	}
+	period := c.RateNS
+	pause := func(ops []h.Op) []h.Op {
+		if c.Refresh == h.RefManual {
+			return append(ops, h.Op{K: h.OpRefresh})
+		}
+		return append(ops, h.Op{K: h.OpSleep, D: []int64{period, period / 2, 2 * period}[r.Intn(3)]})
+	}
+	var ops []h.Op
+	for k, n := 0, r.Range(0, 3); k < n; k++ {
+		ops = pause(append(ops, h.Op{K: h.OpWrite, S: UserLine(0, k, "progress note")}))
+	}
+	var last []h.Op
+	for b := 0; b < nb; b++ {
+		if r.Bool(0.5) {
+			last = append(last, h.Op{K: h.OpAbort, Bar: b})
+		} else {
+			last = append(last, h.Op{K: h.OpIncr, Bar: b, N: sc.Bars[b].Total})
+		}
+		if r.Bool(0.3) {
+			last = pause(last)
+		}
+	}
+	at := r.Intn(len(last) + 1)
+	tail := h.Op{K: h.OpWrite, S: tailPrefix + itoa(r.Range(1, 99)) + "~ status: all done"}
+	last = append(last[:at:at], append([]h.Op{tail}, last[at:]...)...)
+	ops = append(ops, last...)
+	if c.Refresh == h.RefManual {
+		for k, n := 0, r.Range(0, 3); k < n; k++ {
+			ops = append(ops, h.Op{K: h.OpRefresh})
+		}
+	}
+	sc.Clients = [][]h.Op{ops}
+	p := DefaultProfile("C13")
+	sc.Sched = genSched(r, &p)
+	return sc
+}
+
+// tailPrefix starts the text of a Write that does not end its line (it is not a "user line" for the
+// frame parser: the first bar row, if any, follows it on the same line).
+const tailPrefix = "~tail"
+
 func genC13(r *Rand, tier string, i int) *h.Scenario {
 	if r.Bool(0.15) {
 		return genC13Repeat(r)
+	}
+	if r.Bool(0.08) {
+		return genC13Tail(r)
 	}
 	p := DefaultProfile("C13")
 	p.RefreshW = [3]int{6, 3, 0}
@@ -755,8 +819,8 @@ func judgeC13(hi *Hist) []*Violation {
 			continue
 		}
 		for _, l := range strings.Split(strings.TrimSuffix(op.Op.S, "\n"), "\n") {
-			if l == "" {
-				continue // an empty Write has no line
+			if l == "" || strings.HasPrefix(l, tailPrefix) {
+				continue // an empty Write has no line; an unterminated one is counted by its bytes below
 			}
 			mult[l]++
 			if op.Ret >= 0 && op.RS == "" && int(op.R) == len(op.Op.S) {
@@ -772,7 +836,13 @@ func judgeC13(hi *Hist) []*Violation {
 			}
 		}
 	}
-	for l, m := range mult {
+	var multLines []string
+	for l := range mult {
+		multLines = append(multLines, l)
+	}
+	sort.Strings(multLines) // the first violation is the one reported: it must not depend on map order
+	for _, l := range multLines {
+		m := mult[l]
 		if m < 2 || multOK[l] < 0 {
 			continue
 		}
@@ -799,6 +869,36 @@ func judgeC13(hi *Hist) []*Violation {
 		if op.Op.K != h.OpWrite || op.Ret < 0 {
 			continue
 		}
+		okRet := op.RS == "" && int(op.R) == len(op.Op.S)
+		if strings.HasPrefix(op.Op.S, tailPrefix) {
+			// text that does not end its line: its bytes are in the output exactly once
+			n := 0
+			for _, w := range hi.Writes {
+				n += strings.Count(string(w.Payload), op.Op.S)
+			}
+			note("c13_unterminated_writes_checked")
+			switch {
+			case !okRet:
+				if n > 0 && !(hi.WaitOut >= 0 && op.Inv > hi.WaitOut) {
+					add("failed-write-emitted", "Write returned (%d, %q) but its text %q was emitted", op.R, op.RS, op.Op.S)
+				}
+			case n > 1:
+				add("emitted-twice", "text %q of a successful Write (no newline at its end) was emitted %d times", op.Op.S, n)
+			case n == 0 && !fault && op.Inv >= delayOpenUntil:
+				if AutoMode(hi.Sc) && hi.WaitOut >= 0 {
+					add("lost", "Write of %q (no newline at its end) returned (%d, nil) but the text never reached the output (Wait has returned)", op.Op.S, op.R)
+				}
+				if hi.Sc.Cont.Refresh == h.RefManual {
+					for k := range frames {
+						if cycleFirstEvent(hi, frames, k) > op.Ret && frames[k].W.Err == "" {
+							add("lost", "Write of %q (no newline at its end) returned before the render cycle of frame %d began but neither that frame nor a later one carries it", op.Op.S, k)
+							break
+						}
+					}
+				}
+			}
+			continue
+		}
 		lines := strings.SplitAfter(op.Op.S, "\n")
 		var ls []string
 		for _, l := range lines {
@@ -807,7 +907,6 @@ func judgeC13(hi *Hist) []*Violation {
 			}
 		}
 		writes = append(writes, wr{op, ls})
-		okRet := op.RS == "" && int(op.R) == len(op.Op.S)
 		if hi.WaitOut >= 0 && op.Inv > hi.WaitOut {
 			if op.RS != "ErrDone" || op.R != 0 {
 				add("late-write", "Write invoked after Wait returned gave (%d, %q), want (0, ErrDone)", op.R, op.RS)
